@@ -289,6 +289,7 @@ class Program:
         membership tests and iteration only."""
         if isinstance(v, ast.Constant):
             return v
+        frozen = False
         if isinstance(v, ast.Call) and isinstance(v.func, ast.Name) and \
                 v.func.id in ('frozenset', 'tuple') and not v.keywords:
             if not v.args:
@@ -296,10 +297,11 @@ class Program:
             if len(v.args) == 1 and isinstance(v.args[0], (
                     ast.Tuple, ast.List, ast.Set)):
                 v = v.args[0]
+                frozen = True
             else:
                 return None
         if isinstance(v, (ast.Tuple, ast.Set)) or (
-                isinstance(v, ast.List) and False):
+                isinstance(v, ast.List) and frozen):
             elts = []
             for e in v.elts:
                 if names_ok and dotted(e) is not None:
